@@ -157,3 +157,12 @@ func VerifIterUnread(it *Iter) int {
 	}
 	return len(it.framer.buf)
 }
+
+// VerifParseTypeStrings runs the two parsers the schema-metadata code applies to type
+// descriptions read from the schema tables: the CQL type syntax of system_schema
+// (getCassandraType) and the marshal class syntax of the older system tables (parseType).
+func VerifParseTypeStrings(def string) (cql TypeInfo, classTypes []TypeInfo, isComposite bool) {
+	cql = getCassandraType(def, nopLogger{})
+	res := parseType(def, nopLogger{})
+	return cql, res.types, res.isComposite
+}
